@@ -71,6 +71,14 @@ GenNext == GenNextOf(Kinds, GateSet)
 GenSpec == Init /\ [][GenNext]_qv
 RelSpec == Init /\ [][GenNextOf(RelKinds, RelGates)]_qv
 
+\* a third mix: registers wide enough for two-digit qubit indices (run with MaxQ = 12): declarations until the register is full,
+\* then operations on randomly chosen qubits
+WideDecl == <<"declq","declq","declarr","new">>
+WideOps  == <<"gate","gate","gate","gate","gate","cx","cx","cx","cx","cx","measure","measure","measarr","reset","destroy","finish">>
+\* basis-preserving gates only: WideSpec is run over QBasis (module MCQRuntimeB), where the register is its bit string
+WideGates == {<<"x",0>>, <<"y",0>>, <<"z",0>>, <<"rx",2>>, <<"rx",4>>, <<"ry",6>>, <<"ry",2>>, <<"rz",1>>, <<"rz",5>>}
+WideSpec == Init /\ [][IF Room > 0 THEN GenNextOf(WideDecl, WideGates) ELSE GenNextOf(WideOps, WideGates)]_qv
+
 (* A scripted family explored EXHAUSTIVELY (no random choice): one outside qubit, one owner of two qubits (every class of
    width 2), its first qubit put in superposition, the two entangled in either direction, optionally one of them entangled
    with the outside qubit, then the owner released by destroy or by scope exit with every pair of draws, then the outside
@@ -119,7 +127,7 @@ VecSeq(s)  == [i \in 1..Dim(s) |-> s.vec[i-1]]
 F2S(f, n)  == [i \in 1..n |-> f[i-1]]
 B2I(b)     == IF b THEN 1 ELSE 0
 Final == [prog |-> prog, draws |-> draws, halted |-> halted, echo |-> echo, trk |-> trk, ops |-> ops,
-          n |-> sim.n, vec |-> VecSeq(sim),
+          n |-> sim.n, vec |-> VecSeq(sim), basis |-> BasisOf(sim),
           simmeas |-> [i \in 1..sim.n |-> B2I(sim.meas[i-1])],
           evmeas |-> [i \in 1..sim.n |-> B2I(evMeas[i-1])],
           last |-> F2S(last, sim.n), free |-> free,
